@@ -660,7 +660,7 @@ func splitSpan(sp Span, cellOffset int, mode TextReadMode) (left Span, right Spa
 		}
 
 		clusterEnd := cellPos + width
-		if cellOffset >= cellPos && cellOffset < clusterEnd {
+		if cellOffset > cellPos && cellOffset < clusterEnd {
 			// Split point is within this cluster
 			if width > 1 {
 				// We're breaking a wide cluster - return the wide char we're splitting
